@@ -58,7 +58,8 @@ async def _check(case, ctx: Ctx) -> CaseResult:
     spec = case['spec']
     async with SCase(case, ctx) as sc:
         if sc.rejected:
-            return CaseResult([], False, ['rejected:' + sc.rejected])
+            return CaseResult(sc.crash_violations('C07'), False,
+                              ['rejected:' + sc.rejected])
         sim, to_int, model = sc.sim, sc.drv.to_int, sc.model
         await sc.run_schedule()
         await sc.drain()
